@@ -976,6 +976,32 @@ func (m *Model) ruleVIEW(r *Results) {
 					switch x := ins.(type) {
 					case *ssa.Send:
 						sinks = append(sinks, b)
+					case *ssa.Select:
+						// a hand-over offered along with another way out: giving it up must at
+						// least be recorded as an error for the transaction to see
+						sends := false
+						for _, st := range x.States {
+							if st.Dir == types.SendOnly {
+								sends = true
+							}
+						}
+						if !sends {
+							continue
+						}
+						sinks = append(sinks, b)
+						if len(x.States) > 1 || !x.Blocking {
+							records := false
+							for _, b2 := range sc.Fn.Blocks {
+								for _, i2 := range b2.Instrs {
+									if st, ok := i2.(*ssa.Store); ok && isErrorType(st.Val.Type()) {
+										if _, isFree := st.Addr.(*ssa.FreeVar); isFree && forwardReachable(x, st) {
+											records = true
+										}
+									}
+								}
+							}
+							r.check(records, rule, name+" / the hand-over of a changed document is not given up silently", m.instrPos(x), "", "the reader offers the row it read to the mappers in a select with another way out, and records no error when that way is taken: the rest of the changed documents is left out of the index while the transaction goes on to record the view as up to date")
+						}
 					case ssa.CallInstruction:
 						// or a direct call of the map function / a helper that sends
 						if callee := x.Common().StaticCallee(); callee != nil && m.inPkg(callee) && callee != sc.Fn {
